@@ -20,7 +20,19 @@ ASSUMPTIONS = ["programs whose observations depend on the approved set (a failin
                "that is the documented hazard of trimming on an incomplete run, not a confluence failure"]
 CATS = ("create", "fix", "trim", "update")
 TASK_TIMEOUT = 900
-DC4 = ("from dataclasses import dataclass\n@dataclass\nclass DC4:\n    a: int = 0\n    b: int = 0\n    c: int = 0\n    d: int = 0\n\n\n")
+DC4 = ("from dataclasses import dataclass\n@dataclass\nclass DC4:\n    a: int = 0\n    b: int = 0\n    c: int = 0\n    d: int = 0\n\n\n"
+       "from collections import namedtuple\nNT4 = namedtuple('NT4', 'a,b,c,d', defaults=[0, 0, 0, 0])\n\n\n"
+       "import attrs\n@attrs.define\nclass AT4:\n    a: int = 0\n    b: int = 0\n    c: int = 0\n    d: int = 0\n\n\n")
+# elements removed by fix that hold several pending updates (inner snapshots that are never compared), next to other categories
+INNER = [
+    "_ok = [1] == snapshot([1, snapshot([1 + 1, 2 + 2])])",
+    "_ok = [1] == snapshot([1, [snapshot(1 + 1), snapshot(2 + 2)]])",
+    "_ok = {'a': 1} == snapshot({'a': 1, 'b': snapshot([1 + 1, 2 + 2])})",
+    "_ok = [1, 9] == snapshot([1+0, [snapshot(1 + 1), snapshot(2 + 2), snapshot(3 + 3)]])",
+    "_ok = (1,) == snapshot((1, snapshot({'k': 1 + 1, 'j': 2 + 2})))",
+    "_ok = 5 == snapshot([snapshot(1 + 1), snapshot(2 + 2)])",
+    "_ok = [1] == snapshot([1, snapshot([1 + 1, 2 + 2]), snapshot()])",
+]
 KEYS = ("a", "b", "c")
 
 
@@ -50,9 +62,12 @@ def _programs(tier):
                 continue
             for miss in (0, 1):
                 progs.append({"sh": "sub", "s": list(slots), "m": miss})
-        # dataclass call
+        # dataclass call (and the same call shapes for a namedtuple with defaults and an attrs class)
         for slots in itertools.product(("ok", "upd", "wrong", "default", "absent"), repeat=n):
             progs.append({"sh": "dc", "s": list(slots)})
+            progs.append({"sh": "dc", "s": list(slots), "cls": "NT4"})
+            if n < 3 or tier != "quick":
+                progs.append({"sh": "dc", "s": list(slots), "cls": "AT4"})
         # nested: dict value holding a list
         for slots in itertools.product(("ok", "upd", "wrong"), repeat=n):
             for tail in ("same", "longer"):
@@ -64,6 +79,8 @@ def _programs(tier):
         for combo in itertools.product(menu, repeat=k):
             if len(set(combo)) == k:
                 progs.append({"sh": "asserted", "s": list(combo)})
+    for i in range(len(INNER)):
+        progs.append({"sh": "inner", "i": i})
     # separate call sites
     # sites whose new code needs an import (external by create, HasRepr by fix, and the other way round)
     for combo in (("ext", "hasreprfix"), ("hasrepr", "extfix"), ("ext", "hasreprfix", "update"), ("hasrepr", "extfix", "trim"), ("ext", "extfix"), ("hasrepr", "hasreprfix")):
@@ -135,7 +152,10 @@ def source(p):
                 kw.append("%s=0" % names[i])
             elif k == "absent":
                 okw.append("%s=%r" % (names[i], v))
-        body = ["_ok = DC4(%s) == snapshot(DC4(%s))" % (", ".join(okw), ", ".join(kw))]
+        cls = p.get("cls", "DC4")
+        body = ["_ok = %s(%s) == snapshot(%s(%s))" % (cls, ", ".join(okw), cls, ", ".join(kw))]
+    elif sh == "inner":
+        body = [INNER[p["i"]]]
     elif sh == "nested":
         vals = [10 * i + 5 for i in range(len(p["s"]))]
         txt = [{"ok": repr(v), "upd": "%r+0" % v, "wrong": repr(v + 1)}[k] for v, k in zip(vals, p["s"])]
